@@ -26,6 +26,12 @@ class SimStreamReader(asyncio.StreamReader):
 
     async def read(self, n=-1):
         try:
+            # short reads (buggify): the bytes arrive so slowly / the reader is so quick that a read never
+            # returns more than `read_cap` bytes, however the chooser grouped the deliveries
+            cap = self._sim.cfg.get("read_cap", 0) if self._sim is not None else 0
+            if cap and (n < 0 or n > cap):
+                n = cap
+                self._sim.stat("short_reads")
             return await super().read(n)
         except BaseException as e:
             if isinstance(e, (asyncio.CancelledError, GeneratorExit)):
